@@ -134,6 +134,43 @@ def keyword_not_delimited(tree):
     return None
 
 
+def check_optional_expression_groups(chk, pm):
+    """C10.W (semantic part): an OPTIONAL sub-expression group must not be able to match blank-only text - otherwise trailing blanks
+    after the keyword are taken for an (unparsable) expression and change the parse"""
+    n = 0
+    for kind, rnames, _node in pm.handlers:
+        for rn in rnames:
+            rx = pm.regexes[rn]
+            for g in rx.group_names():
+                node = rx.group_node(g)
+                if not rx.group_optional(g):
+                    continue
+                # does the group feed parse_expression?  (its content is an expression: a dot-run)
+                if not any(k.kind == 'any' for k in rx.walk(node)):
+                    continue
+                # only groups reachable directly after blanks at the end of the line matter (e.g. `return` + blanks); a group enclosed in
+                # mandatory punctuation such as jumpif (...) cannot be produced by trailing blanks
+                lo, hi = rx.suffix_gap(g, None)
+                path = rx._path_to(node)
+                opt_parent = next((p for p in reversed(path[:-1]) if p.kind == 'rep' and p.a == 0), None)
+                if opt_parent is None:
+                    continue
+                inner = opt_parent.kids[0]
+                lits = [k for k in rx.walk(inner) if k.kind == 'lit' and not any(k is x for x in rx.walk(node))]
+                if lits:
+                    continue
+                n += 1
+                blank = Lang(node.kids[0], [' ', '\t', 'x'])
+                if blank.accepts(' ') or blank.accepts('  ') or blank.accepts('\t'):
+                    chk.bad('C10.W', pm.mod, rn, f'{rn}: optional group {g!r} can match blank-only text',
+                            f'in {rn} ({rx.pattern}) the optional expression group {g!r} can match text consisting only of blanks: `{kind}` followed by two or more trailing blanks is parsed as '
+                            f'`{kind} <blank expression>` and rejected, although `{kind}` and `{kind} ` are accepted - trailing whitespace changes the program')
+                else:
+                    chk.ok('C10.W', f'{rn}: optional expression group {g!r} cannot match blank-only text (trailing blanks stay trailing blanks)')
+    if n == 0:
+        raise Unrecognised('C10.W', 'no optional expression group found in the statement regexes', pm.mod.rel)
+
+
 def check_tokens(chk, pm):
     rxs = classify_expr_regexes(pm.mod)
     n = 0
@@ -380,6 +417,7 @@ def run(chk):
     pm = ParserModel(chk.repo, 'C10.W')
     chk.guard('C10.S', check_split, chk, pm)
     chk.guard('C10.W', check_whitespace, chk, pm)
+    chk.guard('C10.W', check_optional_expression_groups, chk, pm)
     chk.guard('C10.T', check_tokens, chk, pm)
     chk.guard('C10.A', check_arg_split, chk, pm)
     chk.guard('C10.J', check_continuation_form, chk, pm)
